@@ -279,6 +279,7 @@ func staleExpiry(t *time.Timer, deadline time.Time) bool {
 func (nc *netConn) SetWriteDeadline(t time.Time) error {
 	nc.writeTimerMu.Lock()
 	defer nc.writeTimerMu.Unlock()
+	nc.c.vNcT("NcSetBegin", 1, t)
 	nc.writeDeadline = t
 	atomic.StoreInt64(&nc.writeExpired, 0)
 	if t.IsZero() {
@@ -298,6 +299,7 @@ func (nc *netConn) SetWriteDeadline(t time.Time) error {
 func (nc *netConn) SetReadDeadline(t time.Time) error {
 	nc.readTimerMu.Lock()
 	defer nc.readTimerMu.Unlock()
+	nc.c.vNcT("NcSetBegin", 0, t)
 	nc.readDeadline = t
 	atomic.StoreInt64(&nc.readExpired, 0)
 	if t.IsZero() {
